@@ -511,6 +511,21 @@ class Interp:
                 raise OutOfReach("for loop over symbolic collection without invariant "
                                  "(loop #%s of %s)" % (ordinal, self.frames[-1][0].qualname if self.frames else "?"), st)
             return self.loop_rule_for(st, it, env, module, qual, contract, ordinal)
+        if isinstance(it, Sym) and self.kind(it) == "str":
+            # a string of unknown length: empty, or at least one character whose
+            # iteration must leave the loop (raise / return / break) -- else out of reach
+            t = get_s(it.term)
+            if self.prover.fork(z3.Length(t) == 0):
+                self.exec_block(st.orelse, env, module, qual)
+                return
+            self.assign(st.target, Sym(VStr(z3.SubString(t, 0, 1))), env)
+            try:
+                self.exec_block(st.body, env, module, qual)
+            except BreakEx:
+                return
+            except ContinueEx:
+                pass
+            raise OutOfReach("loop over the characters of a symbolic string", st)
         items = self.iterate(it)
         broke = False
         for x in items:
@@ -1272,10 +1287,19 @@ class Interp:
         for i, p in enumerate(params):
             if i < len(args):
                 if p in kwargs:
+                    if isinstance(kwargs[p], Maybe) and not self.prover.fork(kwargs[p].cond):
+                        kwargs.pop(p)
+                        env.vars[p] = args[i]
+                        continue
                     self.raise_builtin("TypeError", "%s() got multiple values for argument '%s'" % (f.name, p))
                 env.vars[p] = args[i]
             elif p in kwargs:
-                env.vars[p] = kwargs.pop(p)
+                v = kwargs.pop(p)
+                if isinstance(v, Maybe):
+                    di = i - (n - len(f.defaults))
+                    d = f.defaults[di] if di >= 0 else MISSING
+                    v = self.resolve_maybe(f, p, v, d)
+                env.vars[p] = v
             else:
                 di = i - (n - len(f.defaults))
                 if di >= 0:
@@ -1286,7 +1310,10 @@ class Interp:
             env.vars[a.vararg.arg] = tuple(args[n:])
         for p, d in zip(a.kwonlyargs, f.kwdefaults):
             if p.arg in kwargs:
-                env.vars[p.arg] = kwargs.pop(p.arg)
+                v = kwargs.pop(p.arg)
+                if isinstance(v, Maybe):
+                    v = self.resolve_maybe(f, p.arg, v, d if (d is not None or self._has_kwdefault(f, p.arg)) else MISSING)
+                env.vars[p.arg] = v
             elif d is not None or self._has_kwdefault(f, p.arg):
                 env.vars[p.arg] = d
             else:
@@ -1296,6 +1323,17 @@ class Interp:
         elif kwargs:
             self.raise_builtin("TypeError", "%s() got an unexpected keyword argument '%s'" % (f.name, next(iter(kwargs))))
         return env
+
+    def resolve_maybe(self, f, p, m, default):
+        """A keyword argument that is present only under a condition."""
+        prim = (Sym, str, int, bool, float, bytes, type(None))
+        if default is not MISSING and isinstance(default, prim) and isinstance(m.value, prim):
+            return Sym(z3.If(m.cond, self.to_term(m.value), self.to_term(default)))
+        if self.prover.fork(m.cond):
+            return m.value
+        if default is MISSING:
+            self.raise_builtin("TypeError", "%s() missing required argument: '%s'" % (f.name, p))
+        return default
 
     def _has_kwdefault(self, f, name):
         for p, d in zip(f.node.args.kwonlyargs, f.node.args.kw_defaults):
